@@ -69,6 +69,24 @@ func (h *heapRun) applyStats(o *obj, st Step, ret map[string]interface{}) bool {
 		e, err := needAlign(o).Entropy(ai(a, "site"), ab(a, "rmgaps"))
 		ret["f"] = fstr(e)
 		h.lastErr = err
+	case "Describe":
+		names, lens := [][]int{}, []int{}
+		o.sb.IterateChar(func(name string, s []uint8) bool {
+			names, lens = append(names, s2i(name)), append(lens, len(s))
+			return false
+		})
+		switch astrs(a, "what") {
+		case "nseq":
+			ret["nb"] = o.sb.NbSequences()
+		case "taxa":
+			ret["names"] = names
+		default:
+			if o.al != nil {
+				ret["len"] = o.al.Length()
+			} else {
+				ret["names"], ret["lens"] = names, lens
+			}
+		}
 	case "EntropyAll":
 		al := needAlign(o)
 		fs := []interface{}{}
